@@ -235,6 +235,9 @@ func TestVerifC12_Traces(t *testing.T) {
 // p10 0.9538, median 0.9987, identical minima for the three profiles (the minimum is the PROBE_RTT
 // dip of large-BDP paths falling into the measured half). Each run re-measures its own
 // distribution into evidence (extra.utilisation_*).
+// Batched-ACK cell (one ACK per 8/16 packets or 5/10/25 ms; 1840 paths measured): min 0.9227, i.e.
+// above the plain cell's minimum, so the same theta applies. (One ACK per 32/64 packets with a
+// 25 ms timer on ~1 ms paths starves even the unchanged sender - min 0.035 - and is not part of the cell.)
 const v12Theta = 0.45
 
 func v12GenLive(rt *rapid.T) *v12Cfg {
@@ -265,6 +268,11 @@ func v12GenLive(rt *rapid.T) *v12Cfg {
 	c.queueBytes = int64(math.Max(qm*bdp, 20*1500))
 	c.ackEvery = rapid.SampledFrom([]int{1, 2, 2}).Draw(rt, "ackEvery")
 	c.ackDelay = 25e6
+	if rapid.IntRange(0, 2).Draw(rt, "batchedAcks") == 0 {
+		// receiver / network batches acknowledgements: one ACK covers many packets
+		c.ackEvery = rapid.SampledFrom([]int{8, 16}).Draw(rt, "ackEveryBatched") // (32+ packets per ACK with a 25 ms timer on 1 ms paths starves even the unchanged sender)
+		c.ackDelay = rapid.SampledFrom([]int64{5e6, 10e6, 25e6}).Draw(rt, "ackGrid")
+	}
 	c.quicSize0 = rapid.SampledFrom([]int64{1200, 1252, 1280}).Draw(rt, "quicInitialSize")
 	c.quicNow = c.quicSize0
 	c.ccSeed = c.quicSize0
@@ -346,6 +354,9 @@ func TestVerifC12_Liveness(t *testing.T) {
 		st.Case(true, cfg.String(), cls, func() string {
 			return fmt.Sprintf("%s -> utilisation of the second half %.4f (%d packets, %d tail drops)", cfg, util, s.sentCount, s.tailDrops)
 		})
+		if cfg.ackEvery > 2 {
+			cls = append(cls, "batchedAcks")
+		}
 		if util < theta {
 			s.fail("liveness: on a loss-free path of %d B/s (RTT %v, queue %d B) the second half of %v carried %.0f bytes = %.4f of capacity (< theta %.2f)",
 				cfg.capBps, time.Duration(cfg.rtt), cfg.queueBytes, time.Duration(cfg.dur), secondHalf, util, theta)
